@@ -1167,6 +1167,14 @@ def check_option_inverse(run, S, name, n, expect_fn=None, rule='K5 guard pass-se
     run.ob('%s:%s:cases' % (run.prop, name), seen['None'] >= 1 and seen['Some'] >= 1, rule=rule, expected='both a None and a Some outcome exist', found=seen, where=where)
 
 
+def conjuncts(S, tid):
+    """the conjuncts of a boolean term built with the non-short-circuit `&` (`[bool; N] == [true; N]`, `a & b`)"""
+    t = S.terms[tid]
+    if t[0] == 'a' and t[1] == 'bitand' and len(t[2]) == 2:
+        return conjuncts(S, t[2][0]) + conjuncts(S, t[2][1])
+    return [tid]
+
+
 def bool_conjunction(S, out):
     """If the outcome tree is a short-circuit conjunction returning bool, give the list of condition
     term ids (in evaluation order); else None.  Accepts `a && b && c` in MIR shape:
@@ -1178,14 +1186,14 @@ def bool_conjunction(S, out):
             e = o['e']
             if not (e['k'] == 'ret' and e['v'].get('i') == '0'):
                 return None
-            conds.append(o['c'])
+            conds.extend(conjuncts(S, o['c']))
             o = o['t']
         elif o['k'] == 'ret':
             v = o['v']
             if v.get('i') == '1':
                 return conds
             if 't' in v:
-                conds.append(v['t'])
+                conds.extend(conjuncts(S, v['t']))
                 return conds
             return None
         else:
